@@ -2,7 +2,7 @@
    Print Assumptions. *)
 From Coq Require Import ZArith QArith List Bool.
 From Centro Require Import Base.VecC13 Model.Circle Model.CircleVec Model.Feret Model.HullFill Spec.MecSpec Spec.ChrystalHyp Spec.FeretSpec Spec.FeretLower Spec.FillSpec
-  Proofs.MecProofs Proofs.CircleProofs Proofs.ChrystalFull Proofs.ChrystalHull Spec.HullSpec Proofs.CircleVecProofs Proofs.CircleVecStep Proofs.FeretProofs Proofs.FeretLowerProofs Proofs.SweepProofs Spec.CalipersHyp Proofs.CalipersMax Proofs.FillProofs Proofs.FillEdgeProofs Proofs.FillModelProofs.
+  Proofs.MecProofs Proofs.CircleProofs Proofs.ChrystalFull Proofs.ChrystalHull Spec.HullSpec Proofs.CircleVecProofs Proofs.CircleVecStep Proofs.FeretProofs Proofs.FeretLowerProofs Proofs.SweepProofs Spec.CalipersHyp Proofs.CalipersMax Proofs.CalipersMin Proofs.FillProofs Proofs.FillEdgeProofs Proofs.FillModelProofs.
 
 (* Full.  Soundness of the certificate checker that is run on the exact circle reconstructed from
    the implementation's output: the circle contains every pixel centre of S and no circle
@@ -181,15 +181,33 @@ Theorem C14_calipers_max_eq_bruteforce : forall h mx mn,
 Proof. exact sweep_max_complete. Qed.
 Print Assumptions C14_calipers_max_eq_bruteforce.
 
+(* Full (minimum construction, soundness).  For every strictly convex vertex cycle: every distance
+   the code keeps as a candidate for the minimum Feret diameter - vertex v to the line through hull
+   points a and a+1 (mod n), kept when both a and a+1 are antipodes of v in the symmetric closure of
+   the recorded pairs - is the FULL width of the strip resting on edge a -> a+1: no vertex k is
+   farther from that line.  (Every recorded pair is antipodal - loop_anti - and a vertex where the
+   distance to an edge neither increases on leaving nor decreases on arriving is a global maximum -
+   local_max_global, Cramer's rule in the vertex cone.)  So the reported minimum is never smaller
+   than the narrowest edge strip. *)
+Theorem C14_calipers_min_candidates_are_widths : forall h ps v a k,
+  strict_convex_ok h = true -> antipodal_pairs h = Some ps ->
+  (In (v, a) ps \/ In (a, v) ps) ->
+  (In (v, nxt (length h) a) ps \/ In (nxt (length h) a, v) ps) -> (k < length h)%nat ->
+  (cross2 (pnth k h) (pnth a h) (pnth (nxt (length h) a) h) <=
+   cross2 (pnth v h) (pnth a h) (pnth (nxt (length h) a) h))%Z.
+Proof. exact min_candidates_are_widths. Qed.
+Print Assumptions C14_calipers_min_candidates_are_widths.
+
 (* Partial (calipers = brute force).  Proved about the executable model of the antipodal sweep, for
    every vertex list: it terminates (above), it only records pairs of valid, distinct hull indices,
    and so the maximum it reports never exceeds the largest pairwise distance (for lists that are not
    strictly convex; the equality for strictly convex cycles is C14_calipers_max_eq_bruteforce).
-   Missing for the MINIMUM, by name: width_at_antipodal_edge (the narrowest edge strip is found at a
-   vertex v that has both end points a, a+1 of that edge among its recorded antipodes, so that the
-   code's "second antipode is one less than its successor" filter keeps the pair) and
-   min_candidates_are_widths (every kept candidate is the full width of its edge: v is a farthest
-   vertex from edge a -> a+1); both follow from the same row / column description of the path.  Instead, on every run the model's maximum and minimum are compared with brute force
+   Missing for the MINIMUM: every_edge_has_candidate (for EVERY edge a -> a+1 some vertex v has both
+   a and a+1 among its recorded antipodes: each column step of the staircase gives it for
+   a0 <= a <= n-2, each row step for a < a0 because the path ends in a row >= a0, the pairs
+   (a0, n-1), (0, a0) for the closing edge) and the fold/qmin bookkeeping that turns it, together
+   with C14_calipers_min_candidates_are_widths, into equality with the brute-force minimum.
+   Instead, on every run the model's maximum and minimum are compared with brute force
    on the same vertex list (any disagreement is reported as a refutation; none in 30 000+ calls),
    and the implementation's values are certified against the object's full pixel set by the
    verified checkers max_d2 / feret_min_ok / feret_lower_ok. *)
